@@ -9,6 +9,13 @@
                 component; also the after-decode call
   PT          : the same observable on all 8 codecs vs the Python oracle
                 c11c12_oracle.admits driven by the generator's abstract type
+  serial      : constraints applied in series at reference sites (round 5):
+                Check/Serial.v (implementation model compiled_range Head /
+                KeepBounds, specification admits_series, legality) evaluated by
+                vm_compute on every series of every module and on every bound
+                +-1 of every constraint of the series  vs  /repo on the alias
+                chain P0 ::= <built-in> c0, P1 ::= P0 c1, ...  and vs the Python
+                oracle; theorems Check/SerialProofs.v
 """
 import json
 import os
@@ -26,7 +33,7 @@ The fixed module exercises every form the property names on every run.
 '''
 
 
-def fixed_module():
+def fixed_module(minmax=False):
     """Hand-written abstract module: MIN/MAX, named numbers, value references,
     single values, extensible constraints, constraints on references (member,
     alias, list element), list inside CHOICE inside an addition, recursion."""
@@ -76,6 +83,42 @@ def fixed_module():
             mem('v', I(0, 3)),
             mem('kids', {'k': 'SEQUENCE OF', 'elem': ref('R2'), 'size': S(0, 2)})]}),
     ]
+    # constraints applied in series at reference sites: extensible / non-extensible parent x child, value
+    # ranges and SIZEs, one to three levels, MIN / MAX = the parent's bound; alias, member, element, alternative
+    bits = lambda s: {'k': 'BIT STRING', 'named': None, 'size': s}
+    types += [
+        ('PA', I(0, 10)), ('PX', I(0, 10, True)), ('PM', I(0, None)),
+        ('B1', ref('PA', c=S(2, 5))), ('B2', ref('PA', c=S(2, 5, True))),
+        ('B3', ref('PX', c=S(2, 5))), ('B4', ref('PX', c=S(2, 5, True))),
+        ('C1', ref('B2', c=S(3, 4))), ('C2', ref('B2', c=S(3, 4, True))),
+        ('C3', ref('B3', c=S(3, 4, True))), ('C4', ref('B4', c=S(3, 4))),
+        ('C5', ref('C2', c=dict(S(3, 3, True), single=True))),
+        ('D1', ref('PA', c=S(None, 5))), ('D2', ref('PA', c=S(5, None))), ('D3', ref('PM', c=S(None, 5))),
+        ('D4', ref('PA', c=S(None, 5, True))), ('D5', ref('B1', c=S(3, None))),
+        ('PS', {'k': 'STRING', 'sk': 'IA5String', 'size': S(1, 5), 'alpha': None}),
+        ('PO', {'k': 'OCTET STRING', 'size': S(1, 5, True)}),
+        ('PL', {'k': 'SEQUENCE OF', 'elem': {'k': 'BOOLEAN'}, 'size': S(1, 3)}),
+        ('PB', bits(S(4, 12))),
+        ('W1', ref('PL', size=S(2, 2, True))), ('W2', ref('PS', size=S(2, None))),
+        ('W3', ref('PO', size=S(2, 3))), ('W4', ref('W3', size=S(3, 3, True))),
+        ('V1', {'k': 'SEQUENCE', 'ext': None, 'root': [
+            mem('x', ref('PS', size=S(2, 3, True))), mem('y', ref('PA', c=S(2, 5, True)), 'optional'),
+            mem('z', ref('B2', c=S(3, 4, True)), 'optional'), mem('w', ref('PO', size=S(2, 3)), 'optional'),
+            mem('l', ref('PL', size=S(2, 2, True)), 'optional'), mem('b', ref('PB', size=S(8, 8, True)), 'optional'),
+            mem('k', ref('C4'), 'optional'), mem('name', ref('PS', size=S(5, 5, True)), 'optional')]}),
+        ('V2', {'k': 'SEQUENCE OF', 'elem': ref('PA', c=S(2, 5, True)), 'size': None}),
+        ('V3', {'k': 'SET OF', 'elem': ref('PS', size=S(2, 3, True)), 'size': None}),
+        ('V4', {'k': 'SEQUENCE OF', 'elem': ref('B2', c=S(3, 4, True)), 'size': S(0, 2)}),
+        ('V5', {'k': 'CHOICE', 'ext': None, 'root': [
+            mem('y', ref('PA', c=S(2, 5, True))), mem('l', ref('PL', size=S(2, 3))),
+            mem('o', ref('PO', size=S(2, 3, True)))]}),
+        # the same referenced types under the same component names without the constraint
+        ('V6', {'k': 'SET', 'ext': None, 'root': [mem('x', ref('PS')), mem('y', ref('PA')), mem('z', ref('B2'))]}),
+    ]
+    if not minmax:
+        # MIN / MAX written at a reference site on a bounded parent: proposed_fixes/C11-serial-min-max.diff;
+        # C12 (which shares this module) keeps out of that region
+        types = [(n, t) for n, t in types if n not in MINMAX_TYPES]
     mod = {'name': 'M', 'tags': 'AUTOMATIC', 'ext_implied': False, 'types': types,
            'values': [('two', 2), ('zero', 0)]}
     values = {
@@ -93,8 +136,22 @@ def fixed_module():
         'Lab': [b'12345678'],
         'R1': [{'v': 1, 'next': {'v': 2, 'next': {'v': 3, 'next': {'v': 0}}}}],
         'R2': [{'v': 1, 'kids': [{'v': 2, 'kids': [{'v': 3, 'kids': []}]}, {'v': 0, 'kids': []}]}],
+        'PA': [5], 'PX': [5, 50], 'PM': [3], 'B1': [3], 'B2': [3, 7], 'B3': [3], 'B4': [3, 20],
+        'C1': [3], 'C2': [3, 8], 'C3': [4], 'C4': [3], 'C5': [3, 9], 'D1': [3], 'D2': [7], 'D3': [2], 'D4': [3, 8],
+        'D5': [4], 'PS': ['abc'], 'PO': [b'abc'], 'PL': [[True, False]], 'PB': [(b'\xa5\x50', 12)],
+        'W1': [[True, True]], 'W2': ['abc'], 'W3': [b'ab'], 'W4': [b'abc'],
+        'V1': [{'x': 'ab', 'y': 3, 'z': 3, 'w': b'ab', 'l': [True, True], 'b': (b'\xa5', 8), 'k': 3, 'name': 'abcde'},
+               {'x': 'abcd', 'y': 9, 'z': 0, 'l': [True]}],
+        'V2': [[3, 4]], 'V3': [['ab', 'abc']], 'V4': [[3]],
+        'V5': [('y', 3), ('l', [True, True]), ('o', b'ab')],
+        'V6': [{'x': 'abcde', 'y': 10, 'z': 9}],
     }
+    if not minmax:
+        values = {n: v for n, v in values.items() if n not in MINMAX_TYPES}
     return mod, values
+
+
+MINMAX_TYPES = ('D1', 'D2', 'D3', 'D5', 'W2')
 
 
 def lib_observe(spec, name, v, **kw):
@@ -113,6 +170,15 @@ def expected(rt, t, name, v):
         return ('pass', '')
     assert not O.admits(rt, t, v)
     return ('constraints', '.'.join((name,) + vs[0]))
+
+
+def series_sig(t):
+    """'@ser:nx' when the component's value-range / SIZE constraint is a series
+    (constraints at reference sites on top of the referenced type's own)."""
+    c = t.get('c') if t['k'] == 'INTEGER' else t.get('size')
+    if isinstance(c, dict) and c.get('series'):
+        return '@ser:' + ''.join('x' if x['ext'] else 'n' for x in c['series'])
+    return ''
 
 
 NOVALUE = object()
@@ -233,13 +299,18 @@ def run_module(ctx, mod, em, text, g, given_values, budget, batches, dec_budget)
             if len(pos) > 40:
                 pos = [pos[0]] + rng.sample(pos[1:], 39)
             for path, names, st, sv in pos:
+                sig = series_sig(rt(st))
                 for label, new in O.boundary_mutants(g, rng, rt, st, sv):
-                    cases.append((name, G.replace_at(base, path, new), label, names))
+                    cases.append((name, G.replace_at(base, path, new), label + sig, names))
     if len(cases) > budget:
         keep = [c for c in cases if c[2] == 'base']       # every base value (also of the twin sites)
         rest = [c for c in cases if c[2] != 'base']
         rng.shuffle(rest)
-        cases = keep + rest[:budget - len(keep)]
+        # components constrained in series at reference sites first (a third of the budget at most)
+        ser = [c for c in rest if '@ser' in c[2]][:max(budget // 3, 1)]
+        ids = set(id(c) for c in ser)
+        rest = ser + [c for c in rest if id(c) not in ids]
+        cases = keep + rest[:max(budget - len(keep), len(ser))]
     tys = dict(em['types'])
     for name, v, label, names in cases:
         t = tys[name]
@@ -249,7 +320,7 @@ def run_module(ctx, mod, em, text, g, given_values, budget, batches, dec_budget)
             obs[c] = lib_observe(spec, name, v)
             ctx.evaluations += 1
             if obs[c] != exp:
-                report(ctx, ('pt', diff_kind(obs[c], exp), exp[0]), '%s check_constraints: %s on a value the constraints %s (type %s, component %s, %s): got %r expected %r'
+                report(ctx, ('pt', diff_kind(obs[c], exp), exp[0], label.partition('@ser:')[2]), '%s check_constraints: %s on a value the constraints %s (type %s, component %s, %s): got %r expected %r'
                               % (c, 'no ConstraintsError' if obs[c][0] == 'pass' else 'ConstraintsError/path',
                                  'reject' if exp[0] == 'constraints' else 'admit', name, '.'.join(names), label, obs[c], exp),
                               dict(kind='pt', spec=text, codec=c, type=name, value=repr(v), expected=list(exp), label=label))
@@ -291,9 +362,15 @@ def run_module(ctx, mod, em, text, g, given_values, budget, batches, dec_budget)
     batches.append(b)
 
 
+# one import list for both Coq runs: one build (the coq build lock is shared with every other check)
+IMPORTS = ['Base.Prelude', 'Syntax.Asn1', 'Check.Location', 'Check.Constraints', 'Check.Run', 'Check.Serial',
+           'Check.SerialProofs']
+
+
 def corr(ctx, batches):
-    res = c11c12_coq.eval_batches(ctx, 'corr', ['Base.Prelude', 'Syntax.Asn1', 'Check.Location', 'Check.Constraints', 'Check.Run'],
+    res = c11c12_coq.eval_batches(ctx, 'corr', IMPORTS,
                                   [t for i, b in enumerate(batches) for t in b.coq(i)])
+    ctx.log('model evaluated on %d cases' % sum(len(b.cases) for b in batches))
     it = iter(res)
     res = [[x for _ in b.coq_chunks() for x in next(it)] for b in batches]
     agree = 0
@@ -305,12 +382,97 @@ def corr(ctx, batches):
             if obs is None:
                 continue
             if model != obs:
-                report(ctx, ('corr', diff_kind(model, obs), obs[0]), 'model Check/Constraints.v and constraints_checker.py disagree on type %s (%s): model %r, /repo %r'
+                report(ctx, ('corr', diff_kind(model, obs), obs[0], label.partition('@ser:')[2]), 'model Check/Constraints.v and constraints_checker.py disagree on type %s (%s): model %r, /repo %r'
                               % (name, label, model, obs),
                               dict(kind='corr', spec=b.text, type=name, value=repr(v), model=list(model), impl=list(obs)))
             else:
                 agree += 1
     ctx.extra['model_vs_impl_agreements'] = agree
+
+
+def plain(c):
+    return {'lo': c['lo'], 'hi': c['hi'], 'ext': bool(c['ext'])}
+
+
+def series_module(kind, series):
+    """P0 ::= <built-in> c0, P1 ::= P0 c1, ...: the series as an alias chain."""
+    lines = ['S DEFINITIONS AUTOMATIC TAGS ::= BEGIN']
+    for i, c in enumerate(series):
+        parent = ('INTEGER' if kind == 'c' else 'OCTET STRING') if i == 0 else 'P%d' % (i - 1)
+        lines.append('P%d ::= %s%s' % (i, parent, G.r_int_constraint(plain(c)) if kind == 'c' else G.r_size(plain(c))))
+    lines.append('END')
+    return '\n'.join(lines) + '\n'
+
+
+def serial_corr(ctx, ems):
+    """Every series of two or more constraints of the run: Check/Serial.v
+    (legality, collapsed range, verdict of the code as it is / of the repaired
+    rule / of the specification at every bound -1/0/+1 of every constraint of
+    the series) vs the generator (legality, collapse), the Python oracle and
+    /repo on the alias chain."""
+    seen = {}
+    for em in ems:
+        for kind, basekind, series in G.serial_sites(em):
+            key = (kind, tuple((c['lo'], c['hi'], bool(c['ext'])) for c in series))
+            seen.setdefault(key, basekind)
+    items = []
+    for (kind, ser), basekind in sorted(seen.items(), key=repr):
+        ns = set()
+        for lo, hi, _ in ser:
+            for b in (lo, hi):
+                if b is not None:
+                    ns.update(x for x in (b - 1, b, b + 1) if kind == 'c' or 0 <= x <= 70001)
+        items.append((kind, ser, sorted(ns)))
+    if not items:
+        raise AssertionError('no serially applied constraint in this run')
+    opt = lambda b: [] if b is None else [b]
+    texts = []
+    for j in range(0, len(items), 60):
+        arg = [([(opt(lo), opt(hi), ext) for lo, hi, ext in ser], ns) for _, ser, ns in items[j:j + 60]]
+        texts.append('Definition sc%d : list (list (list Z * list Z * bool) * list Z) := %s.\n'
+                     'Eval vm_compute in map run_series sc%d.\n' % (j, c11c12_coq.cq(arg), j))
+    res = c11c12_coq.eval_batches(ctx, 'serial', IMPORTS, texts, shards=4)
+    res = [x for r in res for x in r]
+    assert len(res) == len(items)
+    agree = 0
+    for (kind, ser, ns), r in zip(items, res):
+        (strict, lax, (mins, maxs), verdicts) = r
+        series = [{'lo': lo, 'hi': hi, 'ext': ext} for lo, hi, ext in ser]
+        sig = ''.join('x' if c['ext'] else 'n' for c in series)
+        assert lax == 1, ('generator wrote an illegal series', kind, ser)
+        ctx.count('series:%s:%s:%s' % (kind, sig, 'strict' if strict else 'min-max-of-parent'))
+        col = G.collapse(series)
+        if not col['ext']:
+            assert (opt(col['lo']), opt(col['hi'])) == (list(mins), list(maxs)), ('collapse', ser, col, mins, maxs)
+        text = series_module(kind, series)
+        spec = lib.compile_string(text, 'ber')
+        name = 'P%d' % (len(series) - 1)
+        assert len(verdicts) == len(ns)
+        for n, (head, (keep, adm)) in zip(ns, verdicts):
+            ctx.evaluations += 1
+            oracle = O.in_range(col, n)
+            assert bool(adm) == oracle == O.in_range({'series': series}, n), ('oracle vs Serial.v admits_series', ser, n)
+            assert keep == adm, ('serial_keep_bounds_agrees', ser, n)
+            v = n if kind == 'c' else bytes(n)
+            got = lib_observe(spec, name, v)[0] == 'pass'
+            ctx.case(('series', kind, sig, strict, bool(adm), bool(head)),
+                     dict(kind='series', series=[list(x) for x in ser], value=n, admitted=bool(adm)))
+            if got != bool(keep):
+                report(ctx, ('corr-serial', 'pass' if keep else 'constraints', 'strict' if strict else 'minmax',
+                             'as-coded' if got == bool(head) else 'unlike-coded'),
+                       'constraints applied in series at reference sites %s: model Check/Serial.v (repaired rule = '
+                       'specification) %s the value %d, /repo %s it (%s the rule as coded)'
+                       % (ser, 'admits' if keep else 'rejects', n, 'admits' if got else 'rejects',
+                          'as' if got == bool(head) else 'and unlike'),
+                       dict(kind='corr-serial', spec=text, type=name, value=repr(v),
+                            expected=['pass' if keep else 'constraints', '' if keep else name]))
+            else:
+                agree += 1
+    ctx.extra['serial_series'] = len(items)
+    ctx.extra['serial_model_vs_impl_agreements'] = agree
+    for t in ('serial_head_agrees', 'serial_keep_bounds_agrees', 'serial_head_refuted', 'serial_ext_child_keeps_parent',
+              'collapse_admits'):
+        ctx.obligation('Check/SerialProofs.v:' + t, True, 'built (gate: no Admitted/Axiom); Print Assumptions closed at build')
 
 
 def replay_findings(ctx, findings):
@@ -348,30 +510,38 @@ def run(ctx):
                 'decode(check_constraints=True); non-trivial = every case (all are boundary values of a constrained or '
                 'deliberately unconstrained component inside a generated module)')
     # C11C12_SKIP_PROOFS=1 is for the mutation self-test only (the obligations do not depend on /repo)
-    ok = True if os.environ.get('C11C12_SKIP_PROOFS') else ctx.coq_props()
+    ok = True if os.environ.get('C11C12_SKIP_PROOFS') else ctx.coq_props(extra_targets=['theories/Check/SerialProofs.vo'])
     ctx.log('obligations checked')
     findings = common.load_findings('C11')
     replay_findings(ctx, findings)
     batches = []
     dec_budget = [40 if ctx.quick else 600]
-    mod, values = fixed_module()
+    mod, values = fixed_module(minmax=True)
     em = G.effective(mod)
     g = gen_asn1.Gen(ctx.rng, gen_asn1.Opts())
     g.types = em['types']
-    run_module(ctx, mod, em, G.render_module(mod), g, values, 400, batches, dec_budget)
+    run_module(ctx, mod, em, G.render_module(mod), g, values, 500, batches, dec_budget)
+    dropped = 0
     nmod = 14 if ctx.quick else 150
     for i in range(nmod):
         opts = gen_asn1.Opts(max_depth=3, n_types=5, recursion=True, big=(i % 5 == 4),
                              str_kinds=list(gen_asn1.KM_KINDS) + ['UTF8String', 'BMPString', 'GeneralString'])
-        mod, em, text, g = G.generate(ctx.rng, opts)
-        run_module(ctx, mod, em, text, g, None, 60 if ctx.quick else 120, batches, dec_budget)
+        mod, em, text, g = G.generate(ctx.rng, opts, serial=True)
+        dropped += mod.get('serial_dropped', 0)
+        run_module(ctx, mod, em, text, g, None, 50 if ctx.quick else 130, batches, dec_budget)
+    ctx.extra['serial_dropped_illegal'] = dropped
     ctx.log('property test done, %d evaluations' % ctx.evaluations)
     corr(ctx, batches)
     ctx.log('correspondence done')
+    serial_corr(ctx, [b.em for b in batches])
+    ctx.log('serial constraints: model / specification / oracle / /repo done')
     ctx.trusted_base += [
         'harness/gen_asn1.py + c11c12_gen.py: the abstract type is rendered to ASN.1 text and exported to Coq by two '
         'independent printers; resolution of MIN/MAX/named numbers/value references is done by the generator',
         'c11c12_oracle.admits: Python re-implementation of Check/Admits.v used as PT oracle',
+        'c11c12_gen.series_of / collapse: which constraints apply in series to a component and the single constraint '
+        'exported to the Coq environment (collapse compared with Check/Serial.v on every run; series_of is generator '
+        'knowledge: it wrote the reference chain)',
     ]
     ctx.extra['open_theorems'] = []
     ctx.extra['not_modelled'] = ['REAL', 'time types', 'ANY / open types', 'union and intersection constraints, '
